@@ -22,3 +22,6 @@ extern crate napi_derive;
 
 #[cfg(feature = "napi")]
 mod lib_napi;
+
+#[cfg(datadog_dd_native_iast_rewriter_js_verif)]
+pub mod verif_hooks;
